@@ -252,6 +252,20 @@ def check_region(reg, model, name="R", loose=False):
         w = np.where(ans != marr)[0]
         viols.append(dict(kind="membership", what="%s.sky_within differs from the model at %d of %d pixel centres (first pixel %d: got %s)" % (
             name, len(w), npix, int(w[0]), bool(ans[w[0]]))))
+    # small batches in which several positions fall into ONE pixel (a table with duplicate rows, image pixels finer than the
+    # region's resolution): each position must be answered as if asked alone
+    outside = sorted(set(range(npix)) - set(model))
+    inside = sorted(model)
+    for pick in ([outside[0], outside[len(outside) // 2], outside[-1]] if outside else []):
+        idx = [pick, pick, pick] + ([inside[len(inside) // 2]] if inside else []) + [pick, pick]
+        got = np.asarray(c.sky_within(ra[idx], dec[idx]), dtype=bool)
+        exp = marr[idx]
+        if not np.array_equal(got, exp):
+            viols.append(dict(kind="membership_repeated", what="%s.sky_within of positions %r (pixel %d repeated, it is outside) answers %r, expected %r" % (
+                name, idx, pick, got.tolist(), exp.tolist())))
+            break
+    if viols and viols[-1]["kind"] in ("membership", "membership_repeated"):
+        pass
     else:
         ans2 = np.asarray(c.sky_within(np.degrees(ora), np.degrees(odec), degin=True), dtype=bool)
         if not np.array_equal(ans2, marr[opix]):
